@@ -41,6 +41,12 @@ func main() {
 			tier = os.Args[2]
 		}
 		os.Exit(cmdCheck(nil, tier))
+	case "guards":
+		P, err := Load(repoDir())
+		if err != nil {
+			panic(err)
+		}
+		debugGuards(NewCtx(P, "quick"), os.Args[2], os.Args[3])
 	case "replay":
 		if len(os.Args) < 3 {
 			usage()
